@@ -4,6 +4,9 @@
 // straight through to libc.
 #ifndef VERIF_HARNESS_INTERPOSE_H
 #define VERIF_HARNESS_INTERPOSE_H
+#ifdef VERIF_DETSCHED_OWNS_POLL
+#error "include harness/interpose.h BEFORE harness/sched/detsched.h"
+#endif
 
 #include <dlfcn.h>
 #include <errno.h>
@@ -47,6 +50,15 @@ struct Clock {
   Clock() : virt(false), nowUs(1700000000LL * 1000000LL) {}
 };
 inline Clock& clock() { static Clock c; return c; }
+// scripted results of `time()` (seconds), consumed in call order before the virtual clock is consulted,
+// and an optional recorder called with every value `time()` returns (both unused unless a driver sets them)
+inline std::deque<int64_t>& timeScript() { static std::deque<int64_t> q; return q; }
+typedef void (*TimeRecorder)(int64_t seconds);
+inline TimeRecorder& timeRecorder() { static TimeRecorder r = NULL; return r; }
+// optional (timer driver): called on every read of the virtual clock through gettimeofday(), before the
+// value is taken; it may advance the clock (clock jitter between two reads) and record the reading
+typedef void (*ClockReadHook)();
+inline ClockReadHook& clockReadHook() { static ClockReadHook h = NULL; return h; }
 
 // ---- timer descriptors (timerfd_create'd by muduo): virtual alarm
 struct TimerFd {
@@ -104,6 +116,40 @@ inline PollRecorder& pollRecorder() { static PollRecorder r = NULL; return r; }
 typedef int (*PtrToFd)(void* ptr);
 inline PtrToFd& ptrToFd() { static PtrToFd f = NULL; return f; }
 
+// optional hooks for a scheduler (harness/sched/detsched.h installs them in ds::init()): when set, the
+// hook performs the poll/epoll_wait (through the real function it is handed) instead of a direct call;
+// results are recorded exactly as before.  eventfdWriteHook is called before every write to an eventfd
+// created through the wrapper below.
+typedef int (*RealPollFn)(struct pollfd*, nfds_t, int);
+typedef int (*PollHook)(struct pollfd*, nfds_t, int, RealPollFn);
+inline PollHook& pollHook() { static PollHook h = NULL; return h; }
+typedef int (*RealEpollFn)(int, struct epoll_event*, int, int);
+typedef int (*EpollHook)(int, struct epoll_event*, int, int, RealEpollFn);
+inline EpollHook& epollHook() { static EpollHook h = NULL; return h; }
+typedef void (*EventfdWriteHook)(int fd);
+inline EventfdWriteHook& eventfdWriteHook() { static EventfdWriteHook h = NULL; return h; }
+
+// ---- socket-boundary hooks (all optional; a NULL hook or the result kPass means: do the real call).
+// Used by the client / acceptor drivers to script or record socket(), connect(), accept4(),
+// getsockopt(SO_ERROR), getsockname()/getpeername(), and to observe close()/shutdown()/setsockopt().
+enum { kPass = -2 };
+struct SockHooks {
+  int (*socket)(int domain, int type, int protocol);
+  int (*connect)(int fd, const struct sockaddr* addr, socklen_t len);
+  int (*accept4)(int fd, struct sockaddr* addr, socklen_t* len, int flags);
+  int (*getsockopt)(int fd, int level, int optname, void* optval, socklen_t* optlen);
+  int (*getsockname)(int fd, struct sockaddr* addr, socklen_t* len);
+  int (*getpeername)(int fd, struct sockaddr* addr, socklen_t* len);
+  void (*onClose)(int fd);                            // before the descriptor is closed
+  bool (*onShutdown)(int fd, int how);                // true: handled (nothing else is printed)
+  void (*onSetsockopt)(int fd, int level, int optname);
+  SockHooks() : socket(NULL), connect(NULL), accept4(NULL), getsockopt(NULL), getsockname(NULL), getpeername(NULL),
+                onClose(NULL), onShutdown(NULL), onSetsockopt(NULL) {}
+};
+inline SockHooks& sockHooks() { static SockHooks h; return h; }
+// one-shot bits OR-ed into the revents the poller reports for a descriptor (only when it is reported at all)
+inline std::map<int, int>& reventsOr() { static std::map<int, int> m; return m; }
+
 // make a virtual timer descriptor readable now
 inline void fireTimerFd(int fd) {
   VI_REAL(int, timerfd_settime, int, int, const struct itimerspec*, struct itimerspec*);
@@ -133,6 +179,7 @@ extern "C" {
 int gettimeofday(struct timeval* tv, void* tz) __THROW {
   VI_REAL(int, gettimeofday, struct timeval*, void*);
   if (vi::clock().virt && tv) {
+    if (vi::clockReadHook()) vi::clockReadHook()();
     tv->tv_sec = static_cast<time_t>(vi::clock().nowUs / 1000000);
     tv->tv_usec = static_cast<suseconds_t>(vi::clock().nowUs % 1000000);
     return 0;
@@ -142,9 +189,17 @@ int gettimeofday(struct timeval* tv, void* tz) __THROW {
 
 time_t time(time_t* t) __THROW {
   VI_REAL(time_t, time, time_t*);
+  if (!vi::timeScript().empty()) {
+    time_t v = static_cast<time_t>(vi::timeScript().front());
+    vi::timeScript().pop_front();
+    if (t) *t = v;
+    if (vi::timeRecorder()) vi::timeRecorder()(v);
+    return v;
+  }
   if (vi::clock().virt) {
     time_t v = static_cast<time_t>(vi::clock().nowUs / 1000000);
     if (t) *t = v;
+    if (vi::timeRecorder()) vi::timeRecorder()(v);
     return v;
   }
   return real_time(t);
@@ -187,6 +242,7 @@ int eventfd(unsigned int initval, int flags) __THROW {
 
 ssize_t write(int fd, const void* buf, size_t count) {
   VI_REAL(ssize_t, write, int, const void*, size_t);
+  if (vi::eventfdWriteHook() && vi::eventfds().count(fd)) vi::eventfdWriteHook()(fd);
   std::map<int, vi::FdScript>::iterator it = vi::scripts().find(fd);
   if (it == vi::scripts().end()) return real_write(fd, buf, count);
   vi::FdScript& s = it->second;
@@ -258,12 +314,14 @@ ssize_t readv(int fd, const struct iovec* iov, int iovcnt) {
 
 int shutdown(int fd, int how) __THROW {
   VI_REAL(int, shutdown, int, int);
+  if (vi::sockHooks().onShutdown && vi::sockHooks().onShutdown(fd, how)) return real_shutdown(fd, how);
   if (vi::scripts().count(fd) && how == SHUT_WR) vi::out("sys shutdownWr");
   return real_shutdown(fd, how);
 }
 
 int close(int fd) {
   VI_REAL(int, close, int);
+  if (vi::sockHooks().onClose) vi::sockHooks().onClose(fd);
   if (vi::scripts().count(fd)) { vi::out("sys close"); vi::scripts().erase(fd); }
   vi::timerfds().erase(fd);
   vi::eventfds().erase(fd);
@@ -272,7 +330,14 @@ int close(int fd) {
 
 int epoll_wait(int epfd, struct epoll_event* events, int maxevents, int timeout) {
   VI_REAL(int, epoll_wait, int, struct epoll_event*, int, int);
-  int n = real_epoll_wait(epfd, events, maxevents, timeout);
+  int n = vi::epollHook() ? vi::epollHook()(epfd, events, maxevents, timeout, real_epoll_wait)
+                          : real_epoll_wait(epfd, events, maxevents, timeout);
+  if (n > 0 && !vi::reventsOr().empty() && vi::ptrToFd()) {
+    for (int i = 0; i < n; ++i) {
+      std::map<int, int>::iterator it = vi::reventsOr().find(vi::ptrToFd()(events[i].data.ptr));
+      if (it != vi::reventsOr().end()) { events[i].events |= static_cast<uint32_t>(it->second); vi::reventsOr().erase(it); }
+    }
+  }
   if (n > 0 && vi::pollRecorder() && vi::ptrToFd()) {
     std::vector<std::pair<int, int> > v;
     for (int i = 0; i < n; ++i) v.push_back(std::make_pair(vi::ptrToFd()(events[i].data.ptr), static_cast<int>(events[i].events)));
@@ -286,7 +351,14 @@ int epoll_wait(int epfd, struct epoll_event* events, int maxevents, int timeout)
 
 int poll(struct pollfd* fds, nfds_t nfds, int timeout) {
   VI_REAL(int, poll, struct pollfd*, nfds_t, int);
-  int n = real_poll(fds, nfds, timeout);
+  int n = vi::pollHook() ? vi::pollHook()(fds, nfds, timeout, real_poll) : real_poll(fds, nfds, timeout);
+  if (n > 0 && !vi::reventsOr().empty()) {
+    for (nfds_t i = 0; i < nfds; ++i) {
+      if (fds[i].revents <= 0) continue;
+      std::map<int, int>::iterator it = vi::reventsOr().find(fds[i].fd);
+      if (it != vi::reventsOr().end()) { fds[i].revents = static_cast<short>(fds[i].revents | it->second); vi::reventsOr().erase(it); }
+    }
+  }
   if (vi::pollRecorder()) {
     std::vector<std::pair<int, int> > v;
     for (nfds_t i = 0; n > 0 && i < nfds; ++i)
@@ -294,6 +366,54 @@ int poll(struct pollfd* fds, nfds_t nfds, int timeout) {
     vi::pollRecorder()(v);
   }
   return n;
+}
+
+int socket(int domain, int type, int protocol) __THROW {
+  VI_REAL(int, socket, int, int, int);
+  if (vi::sockHooks().socket) { int r = vi::sockHooks().socket(domain, type, protocol); if (r != vi::kPass) return r; }
+  return real_socket(domain, type, protocol);
+}
+
+int connect(int fd, const struct sockaddr* addr, socklen_t len) {
+  VI_REAL(int, connect, int, const struct sockaddr*, socklen_t);
+  if (vi::sockHooks().connect) { int r = vi::sockHooks().connect(fd, addr, len); if (r != vi::kPass) return r; }
+  return real_connect(fd, addr, len);
+}
+
+int accept4(int fd, struct sockaddr* addr, socklen_t* len, int flags) {
+  VI_REAL(int, accept4, int, struct sockaddr*, socklen_t*, int);
+  if (vi::sockHooks().accept4) { int r = vi::sockHooks().accept4(fd, addr, len, flags); if (r != vi::kPass) return r; }
+  return real_accept4(fd, addr, len, flags);
+}
+
+int accept(int fd, struct sockaddr* addr, socklen_t* len) {
+  VI_REAL(int, accept, int, struct sockaddr*, socklen_t*);
+  if (vi::sockHooks().accept4) { int r = vi::sockHooks().accept4(fd, addr, len, 0); if (r != vi::kPass) return r; }
+  return real_accept(fd, addr, len);
+}
+
+int getsockopt(int fd, int level, int optname, void* optval, socklen_t* optlen) __THROW {
+  VI_REAL(int, getsockopt, int, int, int, void*, socklen_t*);
+  if (vi::sockHooks().getsockopt) { int r = vi::sockHooks().getsockopt(fd, level, optname, optval, optlen); if (r != vi::kPass) return r; }
+  return real_getsockopt(fd, level, optname, optval, optlen);
+}
+
+int setsockopt(int fd, int level, int optname, const void* optval, socklen_t optlen) __THROW {
+  VI_REAL(int, setsockopt, int, int, int, const void*, socklen_t);
+  if (vi::sockHooks().onSetsockopt) vi::sockHooks().onSetsockopt(fd, level, optname);
+  return real_setsockopt(fd, level, optname, optval, optlen);
+}
+
+int getsockname(int fd, struct sockaddr* addr, socklen_t* len) __THROW {
+  VI_REAL(int, getsockname, int, struct sockaddr*, socklen_t*);
+  if (vi::sockHooks().getsockname) { int r = vi::sockHooks().getsockname(fd, addr, len); if (r != vi::kPass) return r; }
+  return real_getsockname(fd, addr, len);
+}
+
+int getpeername(int fd, struct sockaddr* addr, socklen_t* len) __THROW {
+  VI_REAL(int, getpeername, int, struct sockaddr*, socklen_t*);
+  if (vi::sockHooks().getpeername) { int r = vi::sockHooks().getpeername(fd, addr, len); if (r != vi::kPass) return r; }
+  return real_getpeername(fd, addr, len);
 }
 
 }  // extern "C"
